@@ -2,6 +2,7 @@ package broker
 
 import (
 	"context"
+	"errors"
 	"fmt"
 	"runtime"
 	"sort"
@@ -46,6 +47,12 @@ func (w *World) DoSend(t string, cancelAt int, yield *rt.Rand, yieldPct int) *Se
 		o.Expected = append(o.Expected, Simulate(p, o.SendID))
 	}
 	ctx, cancel := context.WithCancel(context.Background())
+	if sendCtr%3 == 0 {
+		// a context that is cancelled with a cause: its error is still context.Canceled, and that is what Send's
+		// error has to wrap
+		cctx, ccancel := context.WithCancelCause(context.Background())
+		ctx, cancel = cctx, func() { ccancel(errCancelCause) }
+	}
 	defer cancel()
 	tr := &Trace{cancel: cancel, yield: yield, yieldPct: yieldPct}
 	if cancelAt > 0 {
@@ -71,6 +78,8 @@ func (w *World) DoSend(t string, cancelAt int, yield *rt.Rand, yieldPct int) *Se
 }
 
 var sendCtrMu sync.Mutex
+
+var errCancelCause = errors.New("the caller's reason for cancelling")
 
 // DoSendConcurrent is DoSend for use from several goroutines at once (never cancelled).
 func (w *World) DoSendConcurrent(t string, yield *rt.Rand, yieldPct int) *SendObs {
